@@ -223,14 +223,26 @@ public:
         if (ec == asio::error::no_recovery)
             _svc.cancel();
 
+        const bool cancelled =
+            ec == asio::error::operation_aborted ||
+            ec == asio::error::no_recovery;
+
+        // Requests queued after cancel() while this write was still in
+        // flight can no longer be sent and nothing else would complete them.
+        if (cancelled) {
+            write_queue.insert(
+                write_queue.end(),
+                std::make_move_iterator(_write_queue.begin()),
+                std::make_move_iterator(_write_queue.end())
+            );
+            _write_queue.clear();
+        }
+
         // errors, if any, are propagated to ops
         for (auto& op : write_queue)
             op.complete(ec);
 
-        if (
-            ec == asio::error::operation_aborted ||
-            ec == asio::error::no_recovery
-        )
+        if (cancelled)
             return;
 
         do_write();
